@@ -164,13 +164,25 @@ func runC05(t testing.TB, c C05Case) (key, what string, classes map[string]int) 
 				return k, w, classes
 			}
 			classes["reprinted-help"]++
-		case "restart", "custom-script":
+		case "restart", "custom-script", "restart-after-cache-removed":
 			s.Stop()
+			if st.Kind == "restart-after-cache-removed" {
+				// a missing cache is regenerated: a new key is fine, but what is
+				// advertised must be the key that is served
+				if cfg.CertFile != "" {
+					os.Remove(cfg.CertFile)
+					classes["cache-removed-between-runs"]++
+				}
+				firstPin = ""
+			}
 			var npin string
 			custom = st.Kind == "custom-script"
 			s, npin, k, w = startAndCheck(custom)
 			if k != "" {
 				return k, w, classes
+			}
+			if firstPin == "" {
+				firstPin = npin
 			}
 			if cfg.CertFile != "" && npin != firstPin {
 				return "restart-other-key", fmt.Sprintf("%s: restart on the same cache serves sha256//%s, first run served sha256//%s", where, npin, firstPin), classes
@@ -251,7 +263,7 @@ func genC05() *rapid.Generator[C05Case] {
 			c.CBAddrs = append(c.CBAddrs, rapid.SampledFrom([]string{"cb.example", "cb.example:8443", "10.9.8.7", "10.9.8.7:444", "[2001:db8::5]:4444", "2001:db8::6", "other.test:1"}).Draw(t, "cb"))
 		}
 		for i := rapid.IntRange(1, 5).Draw(t, "nsteps"); i > 0; i-- {
-			c.Steps = append(c.Steps, C05Step{Kind: rapid.SampledFrom([]string{"script", "script", "kill-shell", "restart", "custom-script", "curl"}).Draw(t, "step")})
+			c.Steps = append(c.Steps, C05Step{Kind: rapid.SampledFrom([]string{"script", "script", "kill-shell", "restart", "custom-script", "curl", "restart-after-cache-removed"}).Draw(t, "step")})
 		}
 		return c
 	})
